@@ -7,7 +7,8 @@ correspondence (model vs implementation, canonical observables):
   * list(getUrls(sheet)), replaceUrls(sheet, f) result + call log of f, on generated sheets with url() in any
     property and nesting level,
   * parse-time loading of an import tree over a generated virtual file system (rule tree + fetcher call log),
-    cssutils.resolveImports (resulting rule tree / exception class + fetcher call log).
+    cssutils.resolveImports (resulting rule tree / exception class + fetcher call log), also on sheets whose @import
+    rules were edited through the DOM after parsing (media re-targeted, MediaList edited in place, href assigned).
 oracle (implementation only, independent of the model):
   * getUrls = independent enumeration of the generated abstract sheet; replaceUrls = map, log = getUrls, identity no-op,
     nothing else touched, also through serialise+parse,
@@ -316,16 +317,29 @@ class C19(Check):
         lines, exp, metas = [], [], []
         for i in range(ctx.n(700, 14000)):
             r = rng.random()
-            if r < 0.55:
+            if r < 0.5:
                 case = V.gen_case(rng, exotic=0.0, fn_url_p=0.0, features={'cycle': 0.0, 'otherhost': 0.0})
                 stream = 'clean'
-            elif r < 0.8:
-                case = V.gen_case(rng, exotic=0.0, fn_url_p=0.0)
+            elif r < 0.7:
+                case = V.gen_case(rng, exotic=0.0, fn_url_p=0.0, features={'malformed': 0.04})
                 stream = 'edges'
+            elif r < 0.85:
+                # sheets with three and more @imports that have to be kept (missing, or media + @page in the target)
+                case = V.gen_case(rng, exotic=0.0, fn_url_p=0.0, features={'kept': 0.6, 'cycle': 0.0})
+                stream = 'kept'
             else:
                 case = V.gen_case(rng, exotic=0.15, fn_url_p=0.3)
                 stream = 'exotic'
             for line, want in self.flatten_case(ctx, cssutils, case, rng, stream):
+                lines.append(line)
+                exp.append(want)
+                metas.append(case)
+        # histories: the sheet is parsed, @import rules are edited through the DOM, then it is flattened
+        for i in range(ctx.n(160, 3200)):
+            case = V.gen_case(rng, exotic=0.0, fn_url_p=0.0, features={'cycle': 0.0, 'all': 0.45,
+                                                                      'kept': 0.15 if rng.random() < 0.3 else 0.0})
+            edits = None
+            for line, want in self.edited_case(ctx, cssutils, case, rng, edits):
                 lines.append(line)
                 exp.append(want)
                 metas.append(case)
@@ -449,6 +463,129 @@ class C19(Check):
             cssutils.util._defaultFetcher = old
         return res
 
+    # -- histories: DOM edits of @import rules between parsing and flattening -----------------------
+    def import_paths(self, cssutils, sheet, prefix=()):
+        """paths (indices through cssRules / styleSheet.cssRules) of all @import rules of a loaded sheet"""
+        out = []
+        for i, r in enumerate(sheet.cssRules):
+            if r.type == r.IMPORT_RULE:
+                out.append(prefix + (i,))
+                if r.styleSheet is not None and r.hrefFound:
+                    out += self.import_paths(cssutils, r.styleSheet, prefix + (i,))
+        return out
+
+    def rule_at(self, sheet, path):
+        r = None
+        for i in path:
+            r = sheet.cssRules[i]
+            sheet = r.styleSheet
+        return r
+
+    def gen_edits(self, cssutils, sheet, rng):
+        paths = self.import_paths(cssutils, sheet)
+        edits = []
+        if not paths:
+            return edits
+        for _ in range(rng.choice([1, 1, 2, 3])):
+            path = rng.choice(paths)
+            op = rng.choice(['media=', 'media=', 'medialist', 'mediatext', 'append', 'delete', 'href'])
+            if op == 'href':
+                r = self.rule_at(sheet, path)
+                arg = rng.choice([r.href, r.href, 'gone-%d.css' % rng.randint(1, 9)])
+            elif op == 'delete':
+                arg = ''
+            else:
+                arg = rng.choice(S.MEDIA + ['all', 'all', 'print', 'screen'])
+            edits.append([list(path), op, arg])
+        return edits
+
+    def apply_edits(self, cssutils, sheet, edits):
+        """returns the edits that were carried out (an edit the DOM refuses is not part of the history)"""
+        import xml.dom
+        done = []
+        for path, op, arg in edits:
+            try:
+                r = self.rule_at(sheet, path)
+                if r is None or r.type != r.IMPORT_RULE:
+                    continue
+                if op == 'media=':
+                    r.media = arg
+                elif op == 'medialist':
+                    r.media = cssutils.stylesheets.MediaList(mediaText=arg)
+                elif op == 'mediatext':
+                    r.media.mediaText = arg
+                elif op == 'append':
+                    r.media.appendMedium(arg)
+                elif op == 'delete':
+                    if r.media.length > 1:
+                        r.media.deleteMedium(r.media.item(0))
+                elif op == 'href':
+                    r.href = arg
+                done.append([path, op, arg])
+            except (xml.dom.DOMException, IndexError, AttributeError):
+                continue
+        return done
+
+    def edited_case(self, ctx, cssutils, case, rng, edits=None, spell=True):
+        """parse, edit @import rules (media re-targeted by assignment / a new MediaList / in place; href assigned),
+        flatten. The sheet's state after the edits (projected from the DOM) is what the flattening has to preserve,
+        and what the model is given."""
+        import cssutils.util
+        import xml.dom
+        main_text, texts = V.render_case(case, rng if spell else None)
+        log, fetch, old = self.run_impl(cssutils, case, texts, main_text)
+        res = []
+        try:
+            with time_limit(30):
+                sheet = cssutils.CSSParser(fetcher=fetch).parseString(main_text, href=case['href'])
+            if S.shallow(S.p_rules(sheet.cssRules, deep=False)) != S.shallow(case['main']):
+                ctx.count('edited:render-parse-mismatch')
+                return []
+            if edits is None:
+                edits = self.gen_edits(cssutils, sheet, rng)
+            edits = self.apply_edits(cssutils, sheet, edits)
+            w = {'href': case['href'], 'css': main_text, 'vfs': texts, 'edits': edits}
+            tree = S.p_rules(sheet.cssRules, deep=True)
+            n0 = len(log)
+            ctx.case(key=('edited', main_text, tuple(sorted(texts.items())), json.dumps(edits)), nontrivial=bool(edits),
+                     kind='edited:%s' % ('+'.join(sorted(set(e[1] for e in edits))) or 'none'),
+                     sample={'href': case['href'], 'css': main_text, 'vfs': texts, 'edits': edits})
+            orig = V.meaning(tree, case['href'], case['vfs'], embedded=True)
+            try:
+                with time_limit(30):
+                    result = cssutils.resolveImports(sheet)
+                flat_rules = S.p_rules(result.cssRules, deep=True)
+                got = 'OK ' + S.wire_sheet(mid(flat_rules))
+            except (xml.dom.HierarchyRequestErr, ValueError, UnicodeError, RecursionError, xml.dom.DOMException, OSError,
+                    TypeError, AttributeError, KeyError, IndexError) as e:
+                ctx.violate('resolveImports returns the flattened sheet (it does not raise)', w,
+                            {'exception': repr(e)[:300]})
+                return res
+            res.append(('resolvetree %s %s %s' % (enc(case['href']), S.wire_vfs(case['vfs']), S.wire_sheet(tree)),
+                        '%s | %s' % (got, show_log(log[n0:]))))
+            if any(k != 'u' for k, u in log[n0:]):
+                ctx.violate('every fetch goes through the fetcher the sheet was parsed with', w,
+                            {'fetched_by_the_default_fetcher': [u for k, u in log[n0:] if k != 'u']})
+            if V.has_cycle(case):
+                return res
+            flat = V.meaning(S.shallow(flat_rules), case['href'], case['vfs'])
+            if any(len(e[0]) > 1 for e in edits) and any(av for _, av in flat.top_imports):
+                # an @import that is kept stands for the FILE it names: edits made in its loaded sheet cannot show in
+                # the flattened sheet. Such histories are compared with the model only.
+                ctx.count('edited:nested-edit-under-kept-import')
+                return res
+            seen = set()
+            for kind, detail, expl in V.compare_meaning(orig, flat):
+                if (kind, expl) in seen:
+                    continue
+                seen.add((kind, expl))
+                ctx.violate('after DOM edits of its @import rules the flattened sheet means what the edited sheet '
+                            'meant: each group under the media its @import has NOW (difference: %s)' % kind,
+                            w, detail, known=expl)
+        finally:
+            cssutils.util._defaultFetcher = old
+        return res
+
     def combine_case(self, ctx, cssutils, case, main_text, texts, rng, w, exc, stream):
         import cssutils.script
         import xml.dom
@@ -506,6 +643,11 @@ class C19(Check):
         elif kind == 'string':
             res = self.string_ops(cssutils, data['s'], data['t'], data['b'])
             self.check_lines(ctx, res, data)
+        elif kind == 'edited':
+            case = {'href': data['href'], 'main': S.j_rules(data['main']),
+                    'vfs': {u: S.j_rules(r) for u, r in data['vfs'].items()}}
+            res = self.edited_case(ctx, cssutils, case, ctx.sub_rng('corpus'), edits=data['edits'], spell=False)
+            self.check_lines(ctx, res, data)
         elif kind == 'flatten':
             case = {'href': data['href'], 'main': S.j_rules(data['main']),
                     'vfs': {u: S.j_rules(r) for u, r in data['vfs'].items()}}
@@ -519,6 +661,10 @@ class C19(Check):
             return S.shallow(S.p_rules(sh.cssRules, deep=False))
         case = {'href': w['href'], 'main': absr(w['css'], w['href']),
                 'vfs': {u: absr(t, u) for u, t in w['vfs'].items()}}
+        if w.get('edits') is not None:
+            res = self.edited_case(ctx, cssutils, case, ctx.sub_rng('replay'), edits=w['edits'], spell=False)
+            self.check_lines(ctx, res, {'case': 'edited', 'href': w['href']})
+            return
         res = self.flatten_case(ctx, cssutils, case, ctx.sub_rng('replay'), 'replay', spell=False, combine=True)
         if w.get('call') == 'csscombine':
             # both modes of the script wrapper
